@@ -177,6 +177,8 @@ def ensure_replay_binary(repo, crate="replay"):
         work = os.path.join(cache, f"{crate}-src-{h}")
         shutil.rmtree(work, ignore_errors=True)
         shutil.copytree(src, work, ignore=shutil.ignore_patterns("target"))
+        import atexit
+        atexit.register(shutil.rmtree, work, True)
         ct = os.path.join(work, "Cargo.toml")
         with open(ct) as f:
             t = f.read()
